@@ -219,7 +219,7 @@ class MergeBatch(Contract):
         # so they cannot all sit below position n-1  =>  the n-th smallest does not increase
         pigeon = z3.And(forall_range(0, n, lambda i: z3.And(0 <= p.pinv(i), p.pinv(i) < n - 1), 'i'),
                         forall2_range(0, n, lambda i, j: z3.Implies(i != j, p.pinv(i) != p.pinv(j))))
-        vc.assume(z3.Implies(pigeon, n <= n - 1))
+        vc.assume(z3.Implies(z3.And(n >= 1, pigeon), n <= n - 1))       # lemmas/SmtForms.lean: pigeonhole_c01_instance (guard n >= 1 explicit)
         vc.cut('the n-th smallest held discrepancy does not increase', buf1(DKEY, n - 1) <= s.buf0(DKEY, n - 1))
         out = buffer_ok(buf1, src1, pos1, base + b, n, L, s.adm)
         return [('buffer_ok preserved: ' + nm, f) for nm, f in out]
@@ -655,3 +655,6 @@ def replay_refuted(cname, rf):
 def replay_input(inp):
     from bounded import c01 as b
     return b.replay_input(inp)
+
+
+USES_LEAN_LEMMAS = ['L1 pigeonhole']      # re-checked with lean (selftest/lean_check.sh, lemmas/SmtForms.lean) in the thorough tier
